@@ -35,7 +35,7 @@ ASSUMPTIONS = E1_ASSUMPTIONS + [
     "bracket comment or doccomment (which leaves it unterminated)",
     "an unterminated bracket *argument* is not one of the families the statement names: such cases are discarded",
     "the fault-free configuration (same worlds, no corruption) must exit 0 and write the page"]
-PROBES = ["family_unterminated-string", "family_unterminated-bracket-comment", "family_invalid-escape",
+PROBES = ["read_error_on_input", "family_unterminated-string", "family_unterminated-bracket-comment", "family_invalid-escape",
           "family_unbalanced-paren", "family_stray-text", "mode_o", "mode_stdout", "in_tree", "stale_page_present",
           "pair", "fault_between_commands", "fault_inside_arguments", "rest_of_file_swallowed_candidate"]
 
@@ -74,7 +74,8 @@ def strategy(cfg):
                 "setting": {"mode": mode, "in_tree": in_tree, "stale": mode == "o" and draw(st.booleans())},
                 "siblings": siblings,
                 "plan": {"kinds": cfg["kinds"], "max_faults": cfg["max_faults"], "phase": draw(st.integers(0, 6)),
-                         "pairs": cfg["pairs"], "pair_seed": draw(st.integers(0, 10 ** 6))}}
+                         "pairs": cfg["pairs"], "pair_seed": draw(st.integers(0, 10 ** 6)),
+                         "read_error": draw(st.sampled_from([None, None, "EIO", "EACCES"]))}}
     return world()
 
 
@@ -225,6 +226,24 @@ def evaluate(spec, ctx):
                 good_page = f.read()
             if setting["stale"]:
                 ctx.probes["stale_page_present"] += 1
+        # --- the input cannot be read at all (EIO / EACCES when it is opened): same obligation
+        if spec["plan"].get("read_error"):
+            if mode == "o" and not setting["stale"] and os.path.exists(page):
+                os.remove(page)
+            with open(src, "w") as f:
+                f.write(spec["text"])
+            res = core.run_call(base, dict(call, faults=[{"seam": "open_r", "match": "proj/" + name,
+                                                          "errno": spec["plan"]["read_error"]}]), snap=False)
+            ctx.note_call(res)
+            ctx.probes["read_error_on_input"] += 1
+            ctx.note_case(core.spec_digest([spec["text"], mode, "read_error", spec["plan"]["read_error"]]), True)
+            if not res.fired:
+                viols.append(viol("harness-fault-not-fired", "read fault on the input did not fire"))
+            wrote = any(e[1] == "open" and e[2] == "w/out/bad.rst" and "w" in str(e[3]) for e in res.events)
+            if res.status == 0 or wrote:
+                viols.append(viol("read-error-swallowed", f"{spec['plan']['read_error']} when opening the input: status "
+                                  f"{res.status}, page {'written' if wrote else 'not written'}"))
+                return viols
         for fs in fault_sets(spec):
             bad = apply_faults(spec["text"], fs)
             if bad == spec["text"]:
@@ -293,7 +312,8 @@ MANIFEST = {
                   "(quick) of each fault kind, singly and in seeded pairs, is applied to the stored file; cases the independent "
                   "scanner does not classify as one of the five families are discarded and counted.  For every remaining case the "
                   "real CLI must exit non-zero, must not open the page for writing (stale page byte-identical, or absent), and "
-                  "must not print a page for the file; the fault-free configuration must succeed.",
+                  "must not print a page for the file; the fault-free configuration must succeed.  An injected EIO/EACCES when the input "
+                  "file is opened carries the same obligation.",
     "level_note": "trusted: the 100-line scanner written from cmake-language(7) (validated on ~3000 generated and all installed "
                   "CMake modules: none flagged), the token map of the generator; small modules (<= 3 commands in quick)",
 }
